@@ -239,6 +239,37 @@ class CFG:
           q.append(m)
     return None
 
+  def iteration_skipping(self, header, must, edge_ok=None):
+    """A path that starts an iteration of the loop `header` (its 'iter'/'true' edge) and comes back to
+    the header without passing any node of `must` (and without leaving the loop), or None."""
+    starts = [m for m, lab in self.succ[header] if lab in ('iter', 'true')]
+    must = set(must)
+    for s0 in starts:
+      if s0 in must:
+        continue
+      if s0 is header:
+        return [(header, None), (header, 'back')]
+      prev = {s0: None}
+      q = collections.deque([s0])
+      while q:
+        n = q.popleft()
+        for m, lab in self.succ[n]:
+          if lab == 'exc' or (edge_ok is not None and not edge_ok(n, m, lab)):
+            continue
+          if m is header:
+            path = [(header, lab)]
+            cur = n
+            while cur is not None:
+              path.append((cur, None))
+              cur = prev[cur]
+            path.append((header, None))
+            return list(reversed(path))
+          if m in must or m in prev or m in (self.exit, self.raise_exit):
+            continue
+          prev[m] = n
+          q.append(m)
+    return None
+
   def dominators(self, edge_ok=None):
     """node -> set of dominators (iterative; the graphs are tiny)."""
     nodes = [n for n in self.reachable(self.entry, edge_ok)]
